@@ -8,7 +8,7 @@ class WrapShapeError(Exception):
         self.msg = msg
 
 
-def root_of(e, env):
+def root_of(e, env, penv=None):
     """Reduce an argument expression to (root, path, kind):
     root = wrapper parameter name (or None), path = member path string, kind in
     {'param','literal','const','other'}. Casts, derefs, address-of and loads are transparent."""
@@ -26,6 +26,10 @@ def root_of(e, env):
             e = e['base']
         elif k == 'ref':
             if e.get('rk') == 'param':
+                if penv is not None and e['name'] in penv:
+                    r, p, kk = penv[e['name']]
+                    full = '.'.join([x for x in [p] + list(reversed(path)) if x])
+                    return (r, full, kk)
                 return (e['name'], '.'.join(reversed(path)), 'param')
             if e.get('rk') == 'local':
                 b = env.get(e['id'])
@@ -64,23 +68,48 @@ class WrapperModel:
         self.returns = []     # (cond, kind, node)  kind: 'call' | 'const' | 'void'
         self.errors = []      # (node, msg) shape violations (W1)
         self.branch_params = set()
+        self.penv = None
+        self.cur = fn
+        self._pending_else = None
+        self.helpers = []
         self._walk_block(fn['body'], {}, ())
 
     def _err(self, node, msg):
         self.errors.append((node, msg))
 
-    def _call(self, e, env, cond):
-        callee = self.prog.callee(e, self.fn) if e.get('k') == 'call' else None
+    def _is_local_helper(self, callee):
+        return callee is not None and 'body' in callee and not callee.get('externC') and callee['l'][0] == self.fn['l'][0] and \
+            not callee.get('method') and len(self.helpers) < 3
+
+    def _call(self, e, env, cond, is_return=False):
+        callee = self.prog.callee(e, self.cur) if e.get('k') == 'call' else None
+        if e.get('k') == 'call' and e.get('this') is None and self._is_local_helper(callee):
+            # a file-local helper shared by several wrappers is looked through: its body is analysed with its parameters bound to the
+            # wrapper's own parameters, so the rules see the library operation that is finally called
+            newp = {}
+            for cp, a in zip(callee['params'], e.get('args', [])):
+                newp[cp['name']] = root_of(a, env, self.penv)
+            saved = (self.penv, self.cur)
+            self.penv, self.cur = newp, callee
+            self.helpers.append(callee['qn'])
+            n_before = len(self.returns)
+            self._walk_block(callee['body'], {}, cond)
+            self.penv, self.cur = saved
+            self.helpers.pop()
+            if not is_return:
+                # results of the helper are dropped by the wrapper
+                self.returns[n_before:] = []
+            return 'helper'
         binds = []
         if e.get('k') == 'icall':
             self._err(e, 'indirect call in wrapper')
             return None
         if e.get('this') is not None:
-            r, p, kk = root_of(e['this'], env)
+            r, p, kk = root_of(e['this'], env, self.penv)
             binds.append(('this', -1, r, p, kk))
         cparams = callee['params'] if callee else []
         for i, a in enumerate(e.get('args', [])):
-            r, p, kk = root_of(a, env)
+            r, p, kk = root_of(a, env, self.penv)
             nm = cparams[i]['name'] if i < len(cparams) else '#%d' % i
             binds.append((nm, i, r, p, kk))
         fw = Forward(e, callee, binds, cond)
@@ -94,14 +123,18 @@ class WrapperModel:
         if k == 'compound':
             env = dict(env)
             for c in s['body']:
+                self._pending_else = None
                 self._walk_block(c, env, cond)
+                if self._pending_else is not None and self._pending_else[1] == cond:
+                    cond = cond + ((self._pending_else[0], False),)
+                self._pending_else = None
         elif k == 'decl':
             for v in s['vars']:
                 init = v.get('init')
                 if init is None:
                     self._err(s, 'uninitialised local in wrapper')
                     continue
-                r, p, kk = root_of(init, env)
+                r, p, kk = root_of(init, env, self.penv)
                 if kk != 'param':
                     self._err(s, 'local %s is not a cast/binding of a wrapper parameter' % v['name'])
                 env[v['id']] = (r, p, kk)
@@ -118,8 +151,9 @@ class WrapperModel:
                 return
             e2 = strip(e)
             if e2.get('k') in ('call', 'icall'):
-                fw = self._call(e2, env, cond)
-                self.returns.append((cond, 'call', s, fw))
+                fw = self._call(e2, env, cond, is_return=True)
+                if fw != 'helper':
+                    self.returns.append((cond, 'call', s, fw))
             elif e2.get('k') == 'ref' and e2.get('rk') == 'global' and 'cv' in e2:
                 self.returns.append((cond, 'const', s, e2))
             else:
@@ -127,12 +161,22 @@ class WrapperModel:
         elif k == 'if':
             c = strip(s['c'])
             if c.get('k') == 'ref' and c.get('rk') == 'param' and (c.get('t') or {}).get('k') == 'bool':
-                self.branch_params.add(c['name'])
-                self._walk_block(s['then'], env, cond + ((c['name'], True),))
+                bname = c['name']
+                if self.penv is not None and bname in self.penv:
+                    r_, p_, kk_ = self.penv[bname]
+                    if kk_ != 'param' or p_:
+                        self._err(s, 'helper branches on something that is not a wrapper parameter')
+                    bname = r_
+                self.branch_params.add(bname)
+                thn_returns = any(x.get('k') == 'return' for x in walk(s['then']))
+                self._walk_block(s['then'], env, cond + ((bname, True),))
                 if s.get('else') is None:
-                    self._err(s, 'branch on %s without else arm' % c['name'])
+                    if not thn_returns:
+                        self._err(s, 'branch on %s without else arm' % bname)
+                    # `if (flag) return f<true>(...); return f<false>(...);` : the fall-through is the else arm
+                    self._pending_else = (bname, cond)
                 else:
-                    self._walk_block(s['else'], env, cond + ((c['name'], False),))
+                    self._walk_block(s['else'], env, cond + ((bname, False),))
             else:
                 self._err(s, 'control flow on something other than a bool parameter')
         elif k == 'null':
